@@ -234,6 +234,10 @@ func (s *Store) keyResult(op, name string) (*key.CertificateAndKey, error) {
 	case "error":
 		c.Err = ErrInjected.Error()
 		return nil, ErrInjected
+	case "errval":
+		// an error together with a usable value: callers must go by the error
+		c.Err = ErrInjected.Error()
+		return &key.CertificateAndKey{Certificate: k.CertDER, Key: k.RSA}, ErrInjected
 	case "nil":
 		return nil, nil
 	case "nokey":
@@ -277,6 +281,10 @@ func (s *Store) GetEntityByID(_ context.Context, entityID string) (*serviceprovi
 	s.mu.Lock()
 	defer s.mu.Unlock()
 	kind, c := s.enter("GetEntityByID", entityID)
+	if kind == "errval" {
+		c.Err = ErrInjected.Error()
+		return s.sps[entityID], ErrInjected
+	}
 	if kind != "" {
 		c.Err = ErrInjected.Error()
 		return nil, ErrInjected
@@ -303,6 +311,10 @@ func (s *Store) GetEntityIDByAppID(_ context.Context, appID string) (string, err
 	s.mu.Lock()
 	defer s.mu.Unlock()
 	kind, c := s.enter("GetEntityIDByAppID", appID)
+	if kind == "errval" {
+		c.Err = ErrInjected.Error()
+		return s.apps[appID], ErrInjected
+	}
 	if kind != "" {
 		c.Err = ErrInjected.Error()
 		return "", ErrInjected
@@ -344,6 +356,14 @@ func (s *Store) AuthRequestByID(_ context.Context, id string) (models.AuthReques
 	s.mu.Lock()
 	defer s.mu.Unlock()
 	kind, c := s.enter("AuthRequestByID", id)
+	if kind == "errval" {
+		c.Err = ErrInjected.Error()
+		if r, ok := s.requests[id]; ok {
+			cp := *r
+			return &cp, ErrInjected
+		}
+		return nil, ErrInjected
+	}
 	if kind != "" {
 		c.Err = ErrInjected.Error()
 		return nil, ErrInjected
@@ -386,6 +406,14 @@ func (s *Store) SetUserinfoWithUserID(_ context.Context, appID string, set model
 	s.mu.Lock()
 	defer s.mu.Unlock()
 	kind, c := s.enter("SetUserinfoWithUserID", appID, userID)
+	if kind == "partial" || kind == "errval" {
+		// the lookup fills the setter and then fails (a storage that streams attributes and loses its connection)
+		c.Err = ErrInjected.Error()
+		if u, ok := s.users[userID]; ok {
+			applyUser(u, set)
+		}
+		return ErrInjected
+	}
 	if kind != "" {
 		c.Err = ErrInjected.Error()
 		return ErrInjected
@@ -403,6 +431,13 @@ func (s *Store) SetUserinfoWithLoginName(_ context.Context, set models.Attribute
 	s.mu.Lock()
 	defer s.mu.Unlock()
 	kind, c := s.enter("SetUserinfoWithLoginName", loginName)
+	if kind == "partial" || kind == "errval" {
+		c.Err = ErrInjected.Error()
+		if u, ok := s.byLogin[loginName]; ok {
+			applyUser(u, set)
+		}
+		return ErrInjected
+	}
 	if kind != "" {
 		c.Err = ErrInjected.Error()
 		return ErrInjected
